@@ -184,6 +184,18 @@ def campaign(c):
         if len(set(o[1] for o in outs)) != 1:
             c.violation('sem:namespace-order', 'the order of `import %s` and `let %s` changes the output' % (mod, mod), dict(src=src.decode()))
         c.case(('namespace', mod), dict(kind='namespace', module=mod))
+    # ... and every real module is unusable before (or without) its own import, whatever else has been imported
+    allmods = sorted(set(p.split('::')[0] for p in lib.syms if '::' in p))
+    for mod in allmods:
+        others = ''.join('import %s;\n' % m for m in allmods if m != mod)
+        refs = [sd['path'] for sd in lib.consts if sd['path'].split('::')[0] == mod][:1] + [f['path'] for f in lib.free_funcs if f['path'].split('::')[0] == mod][:1]
+        for ref in refs:
+            for srcb in (('let x = %s;\n' % ref), (others + 'let x = %s;\n' % ref), ('let x = %s;\nimport %s;\n' % (ref, mod)), (others + '%s;\n' % ref)):
+                im, mo = progdiff.run_both(c, srcb.encode())
+                progdiff.compare(c, srcb.encode(), im, mo, 'unimported')
+                if not (im['outcome'][0] == 'failure' and im['outcome'][1] == 'Name'):
+                    c.violation('sem:unimported', 'module %s is usable without (before) `import %s`: %s' % (mod, mod, im['outcome'],), dict(src=srcb)); break
+        c.case(('unimported', mod), None)
     # (g) scale: many bindings, each a different value, used in reverse order, re-emitted; many statements; the k-th name must
     #     still denote the k-th value (names around 2^8 and, in the thorough tier, 2^16 bindings)
     for n in ([255, 256, 257, 1000] if c.quick else [255, 256, 257, 4096, 65535, 65536, 65537]):
